@@ -251,6 +251,12 @@ def body(chk, db, cfgname):
         r2.bad(IC + "getIndex", g.loc(), "getIndex(info) does not return the stored index on the found edge / IndexSize on the not-found edge", cfgname)
     # ------------------------------------------------------------------ R3: the key order of the inverse table separates all triples
     r3 = chk.rule("C18-R3", "IndexInfo::operator< is a lexicographic order on (label, orbital, spin): distinct triples are distinct keys of the inverse table", "F8 guards", 1)
+    check_lt(r3, db, cfgname)
+    chk.undecided.append("invariance of physical results under relabelling / ordering mode (relational, value level)")
+    chk.note("IndexInfo::operator< orders by a hash of the site label: a hash collision would merge two sites; none can be exhibited statically (information only)")
+
+
+def check_lt(r3, db, cfgname):
     lt = db.fn(IC + "IndexInfo::operator<", nparams=1)
     with r3.guard(IC + "IndexInfo::operator<", lt.loc(), cfgname):
         lctx = Ctx(lt, db)
@@ -282,12 +288,42 @@ def body(chk, db, cfgname):
                 if a == mine(cand) and b == theirs(cand):
                     nm = cand
             if nm is None:
+                # a derived key K(Orbital, Spin) compared with the same K of rhs: search a small domain for two distinct
+                # (orbital, spin) pairs with equal keys.  A collision is a concrete counterexample (both values are legal
+                # for a site with enough orbitals and spins); no collision on the domain proves nothing -> undecided.
+                swap = {mine("Orbital"): theirs("Orbital"), mine("Spin"): theirs("Spin")}
+                from pv.expr import key_subst as _ks
+                if _ks(a, lambda x: swap.get(x)) == b and key_contains(a, lambda x: x in swap):
+                    seenk = {}
+                    hit = None
+                    for o_ in range(6):
+                        for s_ in range(6):
+                            try:
+                                v = _keyval(a, {mine("Orbital"): o_, mine("Spin"): s_})
+                            except KeyError:
+                                v = None
+                            if v is None:
+                                seenk = None
+                                break
+                            if v in seenk:
+                                hit = (seenk[v], (o_, s_), v)
+                                break
+                            seenk[v] = (o_, s_)
+                        if hit or seenk is None:
+                            break
+                    if hit:
+                        r3.bad(IC + "IndexInfo::operator<", lt.loc(j), "operator< orders (orbital, spin) by the derived key %s, which is not injective: (orbital=%d, spin=%d) and (orbital=%d, spin=%d) both give %d, so two different indices of one site are equivalent keys and the inverse table loses one of them" % (
+                            lt.s(lt.nodes[j]["sub"])[:60], hit[0][0], hit[0][1], hit[1][0], hit[1][1], hit[2]), cfgname)
+                        order = None
+                        break
                 raise AnalysisBroken("operator< compares %s, which is not a single member against the same member of rhs (packed / derived keys cannot be shown to separate all (orbital, spin) pairs)" % lt.s(lt.nodes[j]["sub"])[:80])
             fa = lat.get(lt.cfg.pos1(j), frozenset())
             eqs = {c for c in ("SiteLabelHash", "SiteLabel", "Orbital", "Spin") if ("==",) + tuple(sorted([mine(c), theirs(c)], key=repr)) in fa}
             neq = ("!=",) + tuple(sorted([mine(nm), theirs(nm)], key=repr)) in fa
             order.append((nm, eqs, neq, j))
         site = IC + "IndexInfo::operator<"
+        if order is None:
+            return
         names = [o[0] for o in order]
         good = set(names) >= {"Orbital", "Spin"} and bool({"SiteLabelHash", "SiteLabel"} & set(names))
         # lexicographic: the comparison of member k is reached only when all earlier members are equal
@@ -303,8 +339,25 @@ def body(chk, db, cfgname):
         else:
             r3.bad(site, lt.loc(), "operator< is not a lexicographic comparison over label, Orbital and Spin (members compared: %s): two different (site, orbital, spin) triples can be equivalent keys, so the inverse table loses entries" % names, cfgname)
 
-    chk.undecided.append("invariance of physical results under relabelling / ordering mode (relational, value level)")
-    chk.note("IndexInfo::operator< orders by a hash of the site label: a hash collision would merge two sites; none can be exhibited statically (information only)")
+
+def _keyval(k, env):
+    """integer value of key k under env (key -> int); None if a construct is not understood"""
+    if k in env:
+        return env[k]
+    if k[0] == "lit" and isinstance(k[1], int):
+        return k[1]
+    if k[0] == "cast":
+        return _keyval(k[2], env)
+    if k[0] == "op" and len(k) == 4:
+        a, b = _keyval(k[2], env), _keyval(k[3], env)
+        if a is None or b is None:
+            return None
+        try:
+            return {"+": a + b, "-": a - b, "*": a * b, "<<": a << b, ">>": a >> b, "|": a | b, "&": a & b, "^": a ^ b,
+                    "%": a % b if b else None, "/": a // b if b else None}.get(k[1])
+        except (ValueError, TypeError):
+            return None
+    return None
 
 
 def loop_name(s, so, ss, it):
